@@ -36,6 +36,9 @@ def _hs():
     for n in ("rebuild1_live", "rebuild1_dead", "rebuild_dead_live", "empty_registry"):
         hs.append(H("c01::c01_k2_" + n, tier="thorough", desc="K2: real rebuild_interest (prune dead, fold hints into max, recompute registered callsite): " + n,
                     sym="interest answer, hint in {None,6 levels}, stale cache, stale max"))
+    hs.append(H("c01::c01_k2_rebuild_hints2", tier="quick", desc="K2: hint/pruning half of the real rebuild_interest with no callsite registered: 2 live registrars, symbolic hints, stale max",
+                sym="two hints in {None, 6 levels}, stale global max"))
+    hs.append(H("c01::c01_k2_rebuild_hints_dead_live", tier="thorough", desc="K2: hint/pruning half with a dropped collector's registrar before or after a live one", sym="hint, order, stale max"))
     for a in "012":
         for b in "012":
             hs.append(H("c01::c01_k2_rebuild2_%s%s" % (a, b), tier="thorough",
@@ -59,7 +62,7 @@ SPEC = {
     "bounds": "K1/K3: one callsite per macro form (every span!/event! arm that carries its own guard: 2 + 6, plus shorthands and enabled!) x level, one current collector; K2: 0-3 registrars (live) + one dropped, one registered callsite; unwind 2-6 with unwinding assertions",
     "outside": "> 3 collectors; end-to-end histories through Dispatch::new (register_dispatch does not finish in CBMC: replaced by the inductive K2 on harness-owned registrar lists); STATIC_MAX_LEVEL other than the default feature set; real-thread schedules (C04)",
     "stubs": ["std::rt::thread_cleanup -> no-op", "core::fmt::write -> Ok(())", "once_cell::sync::Lazy shim", "H1 wrappers (forwarders), H4 MacroCallsite state setter", "unregistered Dispatch constructor"],
-    "assumptions": ["compositional: K1 (guard formula) + K2 (INV established by every rebuild) + K3 (INV & self-consistent filter => iff) imply the property for every cache state INV allows",
+    "assumptions": ["the two-registrar end-to-end rebuild_interest harnesses (callsite registered) exceed 24 GB and come back undecided in the thorough tier: the two halves are decided separately (hint/pruning half with an empty callsite list for 2 registrars; per-callsite fold for 0-3 registrars; both halves together for 1 registrar)", "compositional: K1 (guard formula) + K2 (INV established by every rebuild) + K3 (INV & self-consistent filter => iff) imply the property for every cache state INV allows",
                     "filter self-consistency is the property's own premise"],
     "manifest": {
         "text": "Bounded compositional proof over the real macros and registry code: K1 decides, for every cached interest x global max x collector verdict, that the real event!/span!/enabled! expansion delivers exactly per the guard formula and consults the collector only when the cache cannot decide; K2 decides that the real rebuild_callsite_interest / rebuild_interest leave the cache-soundness invariant INV for every combination of live/dropped collectors' answers and hints; K3 decides that under INV and a self-consistent filter the delivery is exactly the collector's own verdict; SM covers the registration states only a concurrent run produces. Inductive pre-states replace histories of any length.",
